@@ -52,8 +52,11 @@ Templates(ps) ==
       RECURSIVE Rep(_) Rep(s) == IF s = <<>> THEN <<>> ELSE <<MkSym(s[1]), Ellipsis>> \o Rep(Tail(s))
       RECURSIVE RepList(_) RepList(s) == IF s = <<>> THEN <<>> ELSE <<MkList(<<K, MkSym(s[1])>>), Ellipsis>> \o RepList(Tail(s))
       OneSyms == [i \in DOMAIN os |-> MkSym(os[i])]
+      \* identifiers the pattern does not bind are constants of the template, whatever another rule calls its variables
+      fs == SetToSortSeq({"a", "b"} \ AllVars(ps), LAMBDA x, y : x = "a")
+      FreeSyms == [i \in DOMAIN fs |-> MkSym(fs[i])]
   IN {MkList(OneSyms \o Rep(ms)),                                   \* every variable, in order
-      MkList(<<K>> \o Rep(ms) \o Reverse(OneSyms) \o OneSyms),         \* constant, reversed, duplicated
+      MkList(<<K>> \o FreeSyms \o Rep(ms) \o Reverse(OneSyms) \o OneSyms),         \* constants, reversed, duplicated
       MkList(<<Vlit(OneSyms \o <<K>>)>> \o RepList(ms) \o <<MkList(OneSyms)>>)}   \* nested: vector, list sub-template under the ellipsis
 
 UseAtoms == {MkInt(1), MkInt(2), L, Z, True}
